@@ -343,6 +343,12 @@ META["C10"]["extra"] = miri_extra("C10", 24, 32)
 META["C06"]["extra"] = miri_extra("C06", 6, 32)
 META["C12"]["extra"] = miri_extra("C12", 6, 32)
 META["C15"]["extra"] = miri_extra("C15", 6, 32)
+META["C04"]["extra"] = miri_extra("C04", 7, 32)
+META["C05"]["extra"] = miri_extra("C05", 6, 32)
+META["C11"]["extra"] = miri_extra("C11", 6, 32)
+for _p in ("C04", "C05", "C06", "C11", "C12", "C15"):
+    if "Miri" not in META[_p]["technique"]:
+        META[_p]["technique"] += "; thorough tier: tiny instances of the same thread scenarios free-running under the Miri interpreter (-Zmiri-many-seeds), judged by the same oracle, with Miri's own deadlock / data-race / UB detection"
 
 
 # properties without a check yet are listed here with the reason; the list shrinks as checks land
